@@ -840,6 +840,28 @@ def run(ctx):
                 exc = dotted(e.func) if isinstance(e, ast.Call) else dotted(e)
             if exc != "ValueError":
                 probs.append("a main part that is not a presentation ends in %s, not ValueError" % (exc or pth.end))
+            else:
+                # the package argument may be a path or a stream: on the refusing path it may only be formatted into the message
+                # (%, format, f-string, str, repr, type); a path function applied to it raises TypeError for a stream and replaces
+                # the documented ValueError
+                arg0 = pres.params[0] if pres.params else None
+                nodes_ = [ev[1] for ev in pth.events if ev[0] in ("stmt",)] + [pth.end_node]
+                for nd in nodes_:
+                    for x in ast.walk(nd) if (nd is not None and arg0) else []:
+                        if isinstance(x, ast.Call) and any(isinstance(a_, ast.Name) and a_.id == arg0 for a_ in x.args):
+                            fd = dotted(x.func) or ""
+                            if fd in ("str", "repr", "type", "format", "Package.open", "OpcPackage.open") or fd.endswith((".open", ".format")):
+                                continue
+                            if fd.startswith(("os.path.", "posixpath.", "ntpath.")) or fd in ("os.fspath", "os.fsdecode", "os.fsencode", "Path", "pathlib.Path",
+                                                                                         "PurePath", "pathlib.PurePath", "len"):
+                                probs.append("the refusal applies %s() to the package argument, which may be a stream: %s raises TypeError for a "
+                                             "file-like object, so a stream that is not a presentation ends in TypeError instead of the documented "
+                                             "ValueError" % (fd, fd))
+                        elif isinstance(x, ast.Call) and isinstance(x.func, ast.Attribute) and isinstance(x.func.value, ast.Name) \
+                                and x.func.value.id == arg0 and x.func.attr in ("lower", "upper", "endswith", "startswith", "split", "rsplit", "strip",
+                                                                               "rpartition", "partition", "replace", "encode"):
+                            probs.append("the refusal calls the str method .%s() on the package argument, which may be a stream (AttributeError "
+                                         "instead of the documented ValueError)" % x.func.attr)
             for ev in pth.events:
                 node = ev[1] if ev[0] in ("stmt",) else None
                 if node is not None:
